@@ -29,6 +29,15 @@ def grammar_for(schema_name):
     # the aliased message comes from another topic with its own message type
     atoms = schemas.atoms_for(sc, aliases={'A': schemas.renamed(sc)}, depth=3)
     atoms = {k: _interleave(v) for k, v in atoms.items()}
+    # arrays that the enumerator indexes with the literals 0 and 1 must have room for them
+    roots = {'this': sc, 'A': schemas.renamed(sc)}
+
+    def roomy(node):
+        d = schemas.resolve(node, roots)
+        return d[2] < 0 or d[2] >= 2
+
+    for k in ('A', 'AB', 'AS'):
+        atoms[k] = [a for a in atoms[k] if roomy(a)]
     atoms['N'] = atoms['N'][:8] + [num(0), num(1)]
     atoms['B'] = atoms['B'][:6] + [TRUE]
     atoms['S'] = atoms['S'][:3] + [('lit', '"a"', '"a"')]
@@ -72,6 +81,7 @@ def plan(tier):
             sh = 1 if n <= 3 else NSHARD
             units += [(tier, sname, n, k, sh) for k in range(sh)]
     units += [(tier, 'matrix', 0, k, 16) for k in range(16)]
+    units.append((tier, 'two-schemas', 0, 0, 1))
     return units
 
 
@@ -178,6 +188,34 @@ def _typed_accessors(tn, bound=frozenset()):
 def run(unit):
     tier, sname, n, k, shards = unit
     r = Result()
+    if sname == 'two-schemas':
+        # one parsed property, checked against several schemas one after the other (E4 histories of
+        # length 2 and 3): a check must not leave anything behind that changes the next one
+        generic = ['x = y', 'x != y and z = x', 'x in {y, z}', 'forall i in xs: @i = y', 'x = @A.w', 'bool(x) or str(y) = "a"', 'xs[0] = y']
+        kinds = {'N': 'N', 'B': 'B', 'S': 'S'}
+        from itertools import permutations
+
+        for text in generic:
+            for order in permutations(('N', 'B', 'S'), 3):
+                r.count('evaluations')
+                r.count('states')
+                st, prop = impl.try_parse('prop', 'after s as A: no t { %s }' % text)
+                if st != 'ok':
+                    r.notes['rejected:' + st] += 1
+                    continue
+                for j, kd in enumerate(order):
+                    sc = schemas.msg({'x': kd, 'y': kd, 'z': kd, 'w': kd, 'xs': schemas.arr(kd)})
+                    tok = schemas.to_token(sc, 'M' + kd)
+                    r.count('transitions')
+                    try:
+                        prop.type_check_references({'t': tok, 's': tok})
+                    except Exception as e:  # noqa: BLE001
+                        r.violation('schema check depends on an earlier check of the same property', {'schema': 'two-schemas', 'text': text, 'order': list(order)},
+                                    f'«{text}» checked against schemas of kinds {order[:j + 1]}: the last one raised {type(e).__name__}: {str(e)[:140]}', size=len(text) + j)
+                        break
+                r.count('validated')
+        r.sample({'two_schemas': generic[0]})
+        return r
     if sname == 'matrix':
         from hplmc import sigmatrix
 
@@ -218,13 +256,15 @@ def run(unit):
 def replay(w):
     from hplmc.checks.c08 import _detuple
 
+    if w.get('schema') == 'two-schemas':
+        return [{'sig': v['sig'], 'detail': v['detail']} for v in run(('quick', 'two-schemas', 0, 0, 1)).violations]
     return [{'sig': k, 'detail': d} for k, d in check_term(_detuple(w['term']), w['schema'])]
 
 
 def describe(tier):
     b = bounds(tier)
     return {
-        'rule': f"schemas {list(b['schemas'])} (flat primitives; variable/fixed arrays of each primitive; nested messages three levels; array of messages with constants; fixed arrays of length 0/1/3 and arrays of arrays; four-level nesting) x every Bool term with <= {b['nodes']} nodes generated type-directedly from the schema's valid paths (rooted at the message and at alias A), literals, + * ** = != < and implies not unary-minus abs len sum max bool int, sets, ranges, indexing, inclusion, both quantifiers (variables typed by their domain); each wrapped into 3-5 property positions; plus the signature matrix (every operator and every built-in function with every valid argument shape, used at its declared result type); parse, per-reference declared-type containment, and HplProperty.type_check_references against the real type tokens. A state = one (schema, predicate); transitions = parser / schema-check calls.",
+        'rule': f"schemas {list(b['schemas'])} (flat primitives; variable/fixed arrays of each primitive; nested messages three levels; array of messages with constants; fixed arrays of length 0/1/3 and arrays of arrays; four-level nesting) x every Bool term with <= {b['nodes']} nodes generated type-directedly from the schema's valid paths (rooted at the message and at alias A), literals, + * ** = != < and implies not unary-minus abs len sum max bool int, sets, ranges, indexing, inclusion, both quantifiers (variables typed by their domain); each wrapped into 3-5 property positions; plus a schema whose field names begin with keywords (ERROR, INFO, PIN, notes, inner, ...); plus 7 type-generic predicates each parsed once and checked against number / boolean / string schemas in all 6 orders (histories of length 3); plus the signature matrix (every operator and every built-in function with every valid argument shape, used at its declared result type); parse, per-reference declared-type containment, and HplProperty.type_check_references against the real type tokens. A state = one (schema, predicate); transitions = parser / schema-check calls.",
         'bounds': {'nodes': b['nodes'], 'schemas': len(b['schemas'])},
         'exhaustive': True,
         'assumptions': ['type-directed generation by sort is the reference notion of well-typed'],
